@@ -890,7 +890,13 @@ def _int_bit_length(x):
     used('int.bit_length: 2**(bl-1) <= |v| < 2**bl, bl = 0 for v = 0')
     P = E.cur()
     v = as_int(x)
+    # bit_length is a function of the value: the same term gets the same result on one path
+    memo = P.__dict__.setdefault('bitlen_memo', [])
+    for v0, bl0 in memo:
+        if v0.eq(v):
+            return wrap_int(bl0)
     bl = V.fresh_int('bitlen')
+    memo.append((v, bl))
     a = z3.If(v < 0, -v, v)
     P.assume(bl >= 0)
     P.assume(z3.Implies(a == 0, bl == 0))
